@@ -458,6 +458,17 @@ def gen_mappings(ctx):
                 line.append([rand_int(rng) if rng.random() < 0.3 else rng.randint(-60, 60) for _ in range(n)])
             m.append(line)
         out.append(m)
+    # segments of every arity 1..4 over values whose base-32 digits are zero in the low places (16, 512, 16384: the
+    # continuation characters are all `g`) next to small ones: every way a short segment string can be cut into fields
+    import itertools
+    special = [0, 1, -1, 15, 16, -16, 512, 16384, -16384, 32768]
+    for n in (1, 2, 3, 4):
+        combos = list(itertools.product(special, repeat=n))
+        if len(combos) > ctx.n(1200, 12000):
+            combos = rng.sample(combos, ctx.n(1200, 12000))
+        for c in combos:
+            out.append([[list(c)]])
+        out.append([[list(c) for c in combos[:40]], [], [list(c) for c in combos[40:60]]])
     for m in out:
         ctx.bump('mappings:%s' % ('well-formed' if py_wf(m) else 'no line' if not m else 'has empty segment'))
     return out
